@@ -14,33 +14,38 @@ Definition s_subcommand : bytes := [115; 117; 98; 99; 111; 109; 109; 97; 110; 10
 Definition s_help_about : bytes :=
   [80; 114; 105; 110; 116; 32; 116; 104; 105; 115; 32; 109; 101; 115; 115; 97; 103; 101; 32; 111; 114; 32; 116; 104; 101; 32; 104; 101; 108; 112; 32; 111; 102; 32; 116; 104; 101; 32; 103; 105; 118; 101; 110; 32; 115; 117; 98; 99; 111; 109; 109; 97; 110; 100; 40; 115; 41].
 
-(** [Arg::_build] *)
-Definition arg_build (a : arg) : arg :=
-  let act := match a_action a with
-             | Some x => x
-             | None =>
-                 match a_num a with
-                 | Some r => if r_eqb r r_empty then ASetTrue
-                             else if a_is_positional a && r_is_unbounded r then AAppend else ASet
-                 | None => (* num_vals.unwrap_or_default() = SINGLE: bounded *) ASet
-                 end
-             end in
-  let a := a <| a_action := Some act |> in
-  let a := match action_default_value act with
-           | Some d => if is_nil (a_default a) then a <| a_default := [d] |> else a
-           | None => a end in
-  let a := match action_default_missing_value act with
-           | Some d => if is_nil (a_default_missing a) then a <| a_default_missing := [d] |> else a
-           | None => a end in
-  let a := match a_vp a with
-           | Some _ => a
-           | None => a <| a_vp := Some (opt_default VPString (action_default_vp act)) |> end in
+(** [Arg::_build], one definition per block of the Rust function *)
+Definition ab_action (a : arg) : arg :=
+  match a_action a with
+  | Some _ => a
+  | None =>
+      a <| a_action := Some
+             (match a_num a with
+              | Some r => if r_eqb r r_empty then ASetTrue
+                          else if a_is_positional a && r_is_unbounded r then AAppend else ASet
+              | None => (* num_vals.unwrap_or_default() = SINGLE: bounded *) ASet
+              end) |>
+  end.
+Definition ab_default (a : arg) : arg :=
+  match action_default_value (a_get_action a) with
+  | Some d => if is_nil (a_default a) then a <| a_default := [d] |> else a
+  | None => a end.
+Definition ab_dmissing (a : arg) : arg :=
+  match action_default_missing_value (a_get_action a) with
+  | Some d => if is_nil (a_default_missing a) then a <| a_default_missing := [d] |> else a
+  | None => a end.
+Definition ab_vp (a : arg) : arg :=
+  match a_vp a with
+  | Some _ => a
+  | None => a <| a_vp := Some (opt_default VPString (action_default_vp (a_get_action a))) |> end.
+Definition ab_num (a : arg) : arg :=
   match a_num a with
   | Some _ => a
   | None =>
       if 1 <? a_nvalnames a then a <| a_num := Some {| vmin := a_nvalnames a; vmax := a_nvalnames a |} |>
-      else a <| a_num := Some (action_default_num_args act) |>
+      else a <| a_num := Some (action_default_num_args (a_get_action a)) |>
   end.
+Definition arg_build (a : arg) : arg := ab_num (ab_vp (ab_dmissing (ab_default (ab_action a)))).
 
 (** the auto-generated arguments and the help subcommand *)
 Definition help_arg : arg :=
